@@ -71,6 +71,8 @@ type Op struct {
 	Upgrade    bool          `json:"upgrade,omitempty"`
 	AbortAfter time.Duration `json:"abort_after,omitempty"`
 	Raw        string        `json:"raw,omitempty"` // server mode: raw request bytes
+	Parts      []string      `json:"parts,omitempty"`    // server mode: further pieces written after Raw, PartGap apart
+	PartGap    time.Duration `json:"part_gap,omitempty"`
 	Tag        string        `json:"tag,omitempty"` // free label for oracles
 	Hold       *Hold         `json:"hold,omitempty"` // directed stall of this operation's goroutine
 }
